@@ -144,7 +144,11 @@ Definition client_connect (s : bytes) (st : svc) (w : world) : op_res :=
   match client_parse s with
   | AOk proto addr =>
     if (bytes_eqb proto s_unix || bytes_eqb proto s_tcp) && sv_running st
-       && match sv_listener st with Some e => endpoint_eqb e (endpoint_of proto addr) | None => false end
+       && match sv_listener st with
+          | Some e => endpoint_eqb e (endpoint_of proto addr)
+                      && match e with ETcp hp => negb (ends_with_port0 hp) | _ => true end   (* port 0 names no endpoint *)
+          | None => false
+          end
     then OOk else OErr
   | _ => OErr
   end.
